@@ -27,6 +27,7 @@ TypingOK(s, doc, facts) ==
 BagEq(a, b) == /\ Len(a) = Len(b)
                /\ \A x \in {a[i] : i \in 1..Len(a)} \cup {b[i] : i \in 1..Len(b)} :
                     Cardinality({i \in 1..Len(a) : a[i] = x}) = Cardinality({i \in 1..Len(b) : b[i] = x})
+FieldFacts(facts) == LET fs == SelectSeq(facts, LAMBDA f : f[1] = "field") IN [k \in 1..Len(fs) |-> <<fs[k][2], fs[k][3]>>]
 IterOK(s, doc, its) ==
   \A k \in 1..Len(its) :
     \E o \in 1..Len(doc.operations) :
@@ -41,6 +42,7 @@ Fails(r) ==
           \* standalone validation may only reject what is an error under every schema (it need not report all of it)
           Sel("C20-standalone-rejects-valid", E(s)!StandaloneValid(r.doc) => r.standalone),
           Sel("C18-field-definition-or-selection-type", TypingOK(s, r.doc, r.typing)),
+          Sel("C18-fields-of-the-built-document", BagEq(FieldFacts(r.typing), E(s)!AllBuiltFields(r.doc))),
           Sel("C18-valid-document-guarantee", r.ok => E(s)!ValidGuarantees(r.doc)),
           Sel("C18-iterators", r.ok => (Len(r.iter) = Len(r.doc.operations) /\ IterOK(s, r.doc, r.iter))) }
 Init == l = 1 /\ bad = {}
